@@ -1,5 +1,6 @@
 mod build;
 mod gram;
+mod histsim;
 mod hook;
 mod lifesim;
 mod norm;
@@ -9,9 +10,8 @@ mod sources;
 mod srcsim;
 mod tok;
 mod val;
-mod thrsim {
-    pub fn sched_point() {}
-}
+mod zoo;
+mod thrsim;
 
 use pool::{Engine, Violation};
 use serde_json::{json, Value};
@@ -23,6 +23,8 @@ fn engine_by_name(n: &str) -> Box<dyn Engine> {
     match n {
         "srcsim" => Box::new(srcsim::SrcSim),
         "lifesim" => Box::new(lifesim::LifeSim),
+        "histsim" => Box::new(histsim::HistSim),
+        "thrsim" => Box::new(thrsim::ThrSim),
         _ => {
             eprintln!("unknown engine {}", n);
             std::process::exit(2)
@@ -109,24 +111,27 @@ fn run_with_timeout(cmd: &mut Command, secs: u64) -> (Option<std::process::ExitS
     }
 }
 
-fn parent(args: &Args) {
-    let t0 = Instant::now();
-    let ename = args.v[2].clone();
-    let engine = engine_by_name(&ename);
-    let tier = args.get("--tier").map(|s| s.to_string()).or_else(|| std::env::var("VERIF_TIER").ok()).unwrap_or_else(|| "quick".into());
-    let seed = args.num("--seed").or_else(|| std::env::var("VERIF_SEED").ok().and_then(|s| s.parse().ok())).unwrap_or(1);
-    let count = args.num("--cases").unwrap_or_else(|| engine.cases(&tier));
-    let first = args.num("--first").unwrap_or(0);
-    let workers = args.num("--workers").map(|n| n as usize).unwrap_or_else(workers_default);
-    let evidence_path = args.get("--evidence").map(PathBuf::from);
-    let timeout = args.num("--timeout").unwrap_or(if tier == "thorough" { 7200 } else { 900 });
+struct EngineRun {
+    name: String,
+    child_json: Value,
+    lines: Vec<String>,
+    confirmed: usize,
+    unconfirmed: bool,
+    planned: u64,
+}
+
+/// Run one engine in a supervised child process; minimise, persist and re-confirm what it reports.
+#[allow(clippy::too_many_arguments)]
+fn run_engine(ename: &str, tier: &str, seed: u64, first: u64, count: u64, workers: usize, timeout: u64) -> EngineRun {
+    let engine = engine_by_name(ename);
     println!("VERIF_SEED={} engine={} property={} tier={} cases={}..{} workers={}", seed, ename, engine.property(), tier, first, first + count, workers);
-    let scratch = pool::scratch_dir();
+    let scratch = pool::scratch_dir().join(ename);
+    std::fs::create_dir_all(&scratch).ok();
     let out = scratch.join("child.json");
     let journal = scratch.join("journal.bin");
     let exe = std::env::current_exe().unwrap();
     let mut cmd = Command::new(&exe);
-    cmd.args(["child", &ename, "--tier", &tier, "--seed", &seed.to_string(), "--first", &first.to_string(), "--cases", &count.to_string(), "--workers", &workers.to_string()])
+    cmd.args(["child", ename, "--tier", tier, "--seed", &seed.to_string(), "--first", &first.to_string(), "--cases", &count.to_string(), "--workers", &workers.to_string()])
         .arg("--out")
         .arg(&out)
         .arg("--journal")
@@ -151,19 +156,19 @@ fn parent(args: &Args) {
         for idx in inflight {
             let o2 = scratch.join(format!("single-{}.json", idx));
             let mut c = Command::new(&exe);
-            c.args(["child", &ename, "--tier", &tier, "--seed", &seed.to_string(), "--first", &idx.to_string(), "--cases", "1", "--workers", "1"]).arg("--out").arg(&o2).stdin(Stdio::null());
+            c.args(["child", ename, "--tier", tier, "--seed", &seed.to_string(), "--first", &idx.to_string(), "--cases", "1", "--workers", "1"]).arg("--out").arg(&o2).stdin(Stdio::null());
             let (st2, to2) = run_with_timeout(&mut c, 120);
             let ok2 = st2.map(|s| s.success()).unwrap_or(false);
             if !ok2 {
                 violations.push(Violation {
                     property: engine.property().into(),
-                    engine: ename.clone(),
+                    engine: ename.to_string(),
                     seed,
                     case: idx,
                     class: if to2 { "hang".into() } else { "crash".into() },
                     summary: format!("worker process died running case {} alone (timed_out={}, status={:?})", idx, to2, st2),
                     replay: if ename == "lifesim" {
-                        json!({"engine": ename, "property": engine.property(), "seed": seed, "case": idx, "class": if to2 {"hang"} else {"crash"}, "detail": format!("worker died: {:?}", st2), "spec": lifesim::gen_case(seed, idx, &tier)})
+                        json!({"engine": ename, "property": engine.property(), "seed": seed, "case": idx, "class": if to2 {"hang"} else {"crash"}, "detail": format!("worker died: {:?}", st2), "spec": lifesim::gen_case(seed, idx, tier)})
                     } else {
                         json!({"engine": ename, "property": engine.property(), "seed": seed, "case": idx, "tier": tier, "regenerate": true, "class": if to2 {"hang"} else {"crash"}})
                     },
@@ -208,70 +213,248 @@ fn parent(args: &Args) {
             println!("HARNESS-ERROR: violation for case {} did not reproduce from {} (withdrawn)", v.case, min.display());
         }
     }
+    std::fs::remove_dir_all(&scratch).ok();
+    EngineRun { name: ename.to_string(), child_json, lines, confirmed, unconfirmed: !violations.is_empty() && confirmed == 0, planned: count }
+}
+
+fn parent(args: &Args) {
+    let t0 = Instant::now();
+    let what = args.v[2].clone();
+    let tier = args.get("--tier").map(|s| s.to_string()).or_else(|| std::env::var("VERIF_TIER").ok()).unwrap_or_else(|| "quick".into());
+    let seed = args.num("--seed").or_else(|| std::env::var("VERIF_SEED").ok().and_then(|s| s.parse().ok())).unwrap_or(1);
+    let first = args.num("--first").unwrap_or(0);
+    let workers = args.num("--workers").map(|n| n as usize).unwrap_or_else(workers_default);
+    let evidence_path = args.get("--evidence").map(PathBuf::from);
+    let timeout = args.num("--timeout").unwrap_or(if tier == "thorough" { 7200 } else { 900 });
+    // "c13" = every layer that decides C13 (histories, schedules; Miri in the thorough tier)
+    let names: Vec<&str> = if what == "c13" { vec!["histsim", "thrsim"] } else { vec![what.as_str()] };
+    let mut runs = Vec::new();
+    for n in &names {
+        let e = engine_by_name(n);
+        let count = args.num("--cases").unwrap_or_else(|| e.cases(&tier));
+        let r = run_engine(n, &tier, seed, first, count, workers, timeout);
+        let stop = !r.lines.is_empty();
+        runs.push(r);
+        if stop {
+            break;
+        }
+    }
+    let mut miri: Option<Value> = None;
+    let mut miri_lines: Vec<String> = Vec::new();
+    if what == "c13" && runs.iter().all(|r| r.lines.is_empty()) && (tier == "thorough" || std::env::var("VERIF_MIRI").map(|v| v == "1").unwrap_or(false)) {
+        let (j, lines) = miri_layer(seed, &tier);
+        miri = Some(j);
+        miri_lines = lines;
+    }
+    let property = engine_by_name(names[0]).property();
+    let confirmed: usize = runs.iter().map(|r| r.confirmed).sum::<usize>() + miri_lines.len();
     if let Some(p) = &evidence_path {
-        let ev = evidence(&*engine, &tier, seed, &child_json, t0.elapsed().as_secs_f64(), confirmed, count);
+        let ev = evidence(property, &tier, seed, &runs, miri.as_ref(), t0.elapsed().as_secs_f64(), confirmed);
         if let Some(d) = p.parent() {
             std::fs::create_dir_all(d).ok();
         }
         std::fs::write(p, serde_json::to_vec_pretty(&ev).unwrap()).unwrap_or_else(|e| harness_error(&format!("write evidence: {}", e)));
     }
-    std::fs::remove_dir_all(&scratch).ok();
-    for l in &lines {
-        println!("{}", l);
+    let mut any = false;
+    for r in &runs {
+        for l in &r.lines {
+            println!("{}", l);
+            any = true;
+        }
     }
-    if !lines.is_empty() {
+    for l in &miri_lines {
+        println!("{}", l);
+        any = true;
+    }
+    if any {
         std::process::exit(1);
     }
-    if !violations.is_empty() {
+    if runs.iter().any(|r| r.unconfirmed) {
         std::process::exit(2);
     }
-    println!("OK property={} engine={} cases={} wall_s={:.1}", engine.property(), ename, child_json["cases_run"], t0.elapsed().as_secs_f64());
+    for r in &runs {
+        println!("OK property={} engine={} cases={} wall_s={:.1}", property, r.name, r.child_json["cases_run"], r.child_json["wall_s"].as_f64().unwrap_or(0.0));
+    }
+    if let Some(m) = &miri {
+        println!("OK property={} engine=miri seeds={} wall_s={:.1}", property, m["seeds_run"], m["wall_s"].as_f64().unwrap_or(0.0));
+    }
 }
 
-fn evidence(engine: &dyn Engine, tier: &str, seed: u64, cj: &Value, wall: f64, violations: usize, planned: u64) -> Value {
+/// Miri layer of C13 (thorough tier): real std threads under Miri's seeded pre-emptive scheduler
+/// with the data-race and aliasing detectors on. Returns (evidence object, VIOLATION lines).
+fn miri_layer(seed: u64, tier: &str) -> (Value, Vec<String>) {
+    let t0 = Instant::now();
+    let nseeds: u64 = std::env::var("VERIF_MIRI_SEEDS").ok().and_then(|s| s.parse().ok()).unwrap_or(if tier == "thorough" { 64 } else { 8 });
+    let base = seed.wrapping_mul(1000) % 1_000_000;
+    let dir = std::env::var("VERIF_MIRI_DIR").unwrap_or_else(|_| "/verif/miri".into());
+    // split the seed range over a few processes (each compiles nothing new after the first)
+    let build = Command::new("cargo").args(["+nightly", "miri", "run", "--offline", "-q", "--", "selfcheck"]).current_dir(&dir).env("MIRIFLAGS", "-Zmiri-disable-isolation").stdin(Stdio::null()).output();
+    let ok_build = build.as_ref().map(|o| o.status.success()).unwrap_or(false);
+    if !ok_build {
+        let msg = build.map(|o| String::from_utf8_lossy(&o.stderr).chars().rev().take(1500).collect::<String>().chars().rev().collect::<String>()).unwrap_or_else(|e| e.to_string());
+        harness_error(&format!("miri layer does not build/run: {}", msg));
+    }
+    let procs = workers_default().min(nseeds as usize).max(1) as u64;
+    let per = (nseeds + procs - 1) / procs;
+    let mut children = Vec::new();
+    for p in 0..procs {
+        let lo = base + p * per;
+        let hi = (base + (p + 1) * per).min(base + nseeds);
+        if lo >= hi {
+            break;
+        }
+        let ch = Command::new("cargo")
+            .args(["+nightly", "miri", "run", "--offline", "-q", "--", "run"])
+            .current_dir(&dir)
+            .env("MIRIFLAGS", format!("-Zmiri-many-seeds={}..{} -Zmiri-many-seeds-keep-going -Zmiri-preemption-rate=0.1 -Zmiri-disable-isolation", lo, hi))
+            .stdin(Stdio::null())
+            .stdout(Stdio::piped())
+            .stderr(Stdio::piped())
+            .spawn()
+            .unwrap_or_else(|e| harness_error(&format!("spawn miri: {}", e)));
+        children.push((lo, hi, ch));
+    }
+    let mut lines = Vec::new();
+    let mut seeds_run = 0u64;
+    let mut ops = 0u64;
+    let mut failures = Vec::new();
+    for (lo, hi, ch) in children {
+        let out = ch.wait_with_output().unwrap_or_else(|e| harness_error(&format!("miri wait: {}", e)));
+        let so = String::from_utf8_lossy(&out.stdout).to_string();
+        let se = String::from_utf8_lossy(&out.stderr).to_string();
+        for l in so.lines() {
+            if let Some(rest) = l.strip_prefix("MIRI-OK ops=") {
+                seeds_run += 1;
+                ops += rest.trim().parse::<u64>().unwrap_or(0);
+            }
+        }
+        if !out.status.success() {
+            // find which seeds failed: "Trying seed: N" / "FAILING SEED: N" lines in stderr
+            let failing: Vec<String> = se.lines().filter(|l| l.contains("FAILING SEED") || l.contains("failing seed")).map(|s| s.to_string()).collect();
+            failures.push(json!({"seed_range": [lo, hi], "failing": failing, "stderr_tail": se.chars().rev().take(3000).collect::<String>().chars().rev().collect::<String>(), "stdout_tail": so.chars().rev().take(1000).collect::<String>().chars().rev().collect::<String>()}));
+        }
+    }
+    if !failures.is_empty() {
+        let replays = PathBuf::from(std::env::var("VERIF_REPLAYS").unwrap_or_else(|_| "/verif/replays".into()));
+        std::fs::create_dir_all(&replays).ok();
+        let p = replays.join(format!("C13-miri-{}.json", seed));
+        std::fs::write(&p, serde_json::to_vec_pretty(&json!({"engine": "miri", "property": "C13", "seed": seed, "failures": failures, "how_to_replay": "cd /verif/miri && MIRIFLAGS='-Zmiri-seed=<failing seed> -Zmiri-preemption-rate=0.1 -Zmiri-disable-isolation' cargo +nightly miri run --offline -- run"})).unwrap()).unwrap();
+        lines.push(format!("VIOLATION property=C13 replay={}", p.display()));
+    }
+    let j = json!({
+        "engine": "miri",
+        "seeds_run": seeds_run,
+        "seed_range": [base, base + nseeds],
+        "operations_checked": ops,
+        "wall_s": t0.elapsed().as_secs_f64(),
+        "what": "3 real std::thread clients share Arc<dyn Parser + Send + Sync> zoo grammars and a static Cache under Miri's seeded pre-emptive scheduler (-Zmiri-preemption-rate=0.1) with data-race and aliasing detection; every result is compared with a fresh sequential parse",
+        "failures": failures.len(),
+    });
+    (j, lines)
+}
+
+fn coverage_for(engine: &dyn Engine, cj: &Value, planned: u64) -> Value {
     let cases = cj["cases_run"].as_u64().unwrap_or(0);
     let counters = &cj["counters"];
-    let evals = counters["evaluations.replica_runs"].as_u64().unwrap_or(cases).max(1);
+    let evals = match engine.name() {
+        "histsim" => counters["evaluations.history_parses"].as_u64().unwrap_or(cases),
+        "thrsim" => counters["evaluations.executions"].as_u64().unwrap_or(cases),
+        _ => counters["evaluations.replica_runs"].as_u64().unwrap_or(cases),
+    }
+    .max(1);
     let simulated = match engine.name() {
         "lifesim" => "thread stack size (resource limit), lifecycle history, nesting depth; crash containment by process boundary",
+        "histsim" => "the operation history (which handle, which wrapper, which input, clone/drop/move order) and the aborted-parse fault (panic injected at the k-th user callback); sources behind Stream/IoInput subjects are SimIter/SimReader",
+        "thrsim" => "the thread scheduler (real OS threads released one at a time by a baton; the recording scheduler decides who runs next at every user callback and every source call), the sources (SimIter/SimReader), the aborted-parse fault",
         _ => "Read+Seek device (SimReader), pull iterators (SimIter, SimCloneIter); every decision from the case PRNG / the recorded trace",
     };
-    let child_wall = cj["wall_s"].as_f64().unwrap_or(wall).max(1e-9);
+    let child_wall = cj["wall_s"].as_f64().unwrap_or(1.0).max(1e-9);
+    let mut cov = json!({
+        "evaluations": evals,
+        "distinct_nontrivial": cj["distinct"]["nontrivial_cases"].as_u64().unwrap_or(0),
+        "rule": rule_text(engine.name()),
+        "samples": cj["samples"]["samples"],
+        "exhaustive": false,
+        "engine": engine.name(),
+        "cases_planned": planned,
+        "cases_run": cases,
+        "distinct_cases_by_outcome_digest": cj["distinct"]["cases"],
+        "simulated_runs_per_hour": (evals as f64 / child_wall * 3600.0) as u64,
+        "cases_per_hour": (cases as f64 / child_wall * 3600.0) as u64,
+        "simulated_time": "chumsky has no clock, timer or deadline; logical time = seam events (token ticks + user callbacks + source calls + scheduler decisions), reported under counters.sim_steps.*",
+        "counters": counters,
+        "maxima": cj["maxima"],
+        "real_vs_stub": {
+            "real": "all of chumsky, unmodified, compiled from /repo's working tree (features std, stacker, memoization, extension, pratt, either, bytes, regex, unstable)",
+            "simulated": simulated,
+            "stubbed_inside_chumsky": "nothing"
+        }
+    });
+    if engine.name() == "thrsim" {
+        cov["distinct_interleavings"] = cj["distinct"]["interleavings"].clone();
+    }
+    if engine.name() == "histsim" {
+        cov["exhaustive_subspace"] = json!({
+            "histories": counters["exhaustive_subspace.histories"],
+            "what": "for each of the 7 zoo grammars x 3 handle disciplines (same value / fresh clone per step / fresh wrapper per step with drops): ALL histories of length <= 4 (quick) / <= 6 (thorough) over a pool of 4 inputs — complete for that sub-space only",
+        });
+    }
+    cov
+}
+
+fn evidence(property: &str, tier: &str, seed: u64, runs: &[EngineRun], miri: Option<&Value>, wall: f64, violations: usize) -> Value {
+    let covs: Vec<(String, Value)> = runs.iter().map(|r| (r.name.clone(), coverage_for(&*engine_by_name(&r.name), &r.child_json, r.planned))).collect();
+    let mut assum: Vec<String> = Vec::new();
+    for r in runs {
+        assum.extend(assumptions(&r.name));
+    }
+    let coverage = if covs.len() == 1 && miri.is_none() {
+        covs[0].1.clone()
+    } else {
+        let mut samples: Vec<Value> = Vec::new();
+        let mut layers = serde_json::Map::new();
+        let mut evals = 0u64;
+        let mut nontriv = 0u64;
+        let mut rules = Vec::new();
+        for (n, c) in &covs {
+            evals += c["evaluations"].as_u64().unwrap_or(0);
+            nontriv += c["distinct_nontrivial"].as_u64().unwrap_or(0);
+            rules.push(format!("[{}] {}", n, c["rule"].as_str().unwrap_or("")));
+            if let Some(a) = c["samples"].as_array() {
+                samples.extend(a.iter().take(3).cloned());
+            }
+            layers.insert(n.clone(), c.clone());
+        }
+        if let Some(m) = miri {
+            layers.insert("miri".into(), m.clone());
+            assum.push("miri layer: Miri's scheduler and race detector are trusted; chumsky is built without the stacker feature there (psm is assembly)".into());
+        }
+        json!({
+            "evaluations": evals.max(1),
+            "distinct_nontrivial": nontriv,
+            "rule": rules.join("  ||  "),
+            "samples": samples,
+            "exhaustive": false,
+            "layers": layers,
+        })
+    };
     json!({
-        "property_id": engine.property(),
+        "property_id": property,
         "tier": tier,
         "seed": seed,
         "level": "exploration",
         "wall_s": wall,
         "violations": violations,
-        "coverage": {
-            "evaluations": evals,
-            "distinct_nontrivial": cj["distinct"]["nontrivial_cases"].as_u64().unwrap_or(0),
-            "rule": rule_text(engine.name()),
-            "samples": cj["samples"]["samples"],
-            "exhaustive": false,
-            "engine": engine.name(),
-            "cases_planned": planned,
-            "cases_run": cases,
-            "distinct_cases_by_outcome_digest": cj["distinct"]["cases"],
-            "simulated_runs_per_hour": (evals as f64 / child_wall * 3600.0) as u64,
-            "cases_per_hour": (cases as f64 / child_wall * 3600.0) as u64,
-            "simulated_time": "chumsky has no clock, timer or deadline; logical time = seam events (token ticks + user callbacks + source calls), reported under counters.sim_steps.*",
-            "counters": counters,
-            "maxima": cj["maxima"],
-            "real_vs_stub": {
-                "real": "all of chumsky, unmodified, compiled from /repo's working tree (features std, stacker, memoization, extension, pratt, either, bytes, regex, unstable)",
-                "simulated": simulated,
-                "stubbed_inside_chumsky": "nothing"
-            }
-        },
-        "assumptions": assumptions(engine.name()),
+        "coverage": coverage,
+        "assumptions": assum,
     })
 }
 
 fn rule_text(engine: &str) -> String {
     match engine {
         "srcsim" => "case = seeded (grammar AST, 1-3 token strings); each string is parsed (parse and check) through every applicable input kind fed by a simulated source whose per-call behaviour (chunk sizes, EINTR, cut points, size_hint) is drawn from the case PRNG; evaluations = replica runs compared with the &[T] reference. distinct_nontrivial = distinct (case digest, kind, policy) where the reference consumed >= 2 tokens AND the replica's source actually saw a backward reposition / short read / EINTR (reader) or served a rewind from its cache / by cloning (iterators)".into(),
+        "histsim" => "case = one grammar value (generated Boxed grammar for &[u8] / &str / Stream / IoInput, a statically typed zoo grammar, or a Cache) + a pool of 2-5 inputs + a seeded history of <= 13 operations (parse / check / *_with_state through value, &, &&, Box, Rc, Arc, boxed(), Either, stacks of those, Cache::get(); derive wrapper, clone, drop incl. the original, move; aborted parse = panic injected at the k-th user callback); evaluations = parses performed inside histories, each compared with a brand-new parser on the same input (references computed before and after the history, on pristine OS threads in 1/8 of the cases). distinct_nontrivial = distinct (subject, history, outcomes) digests where the history contains an accepted AND a rejected parse, or an aborted parse that fired followed by another parse, AND either a drop/move/derive or >= 3 parses".into(),
+        "thrsim" => "case = one shared Sync parser (generated grammar as &dyn Parser+Send+Sync over &[u8] / Stream / IoInput, zoo grammar as Arc<dyn Parser+Send+Sync>, or a static Cache) + 2-8 client tasks with 1-4 operations each (1/3 of the cases abort some operations mid-parse) + 10 (quick) / 16 (thorough) schedules: sequential, round-robin, then seeded uniform-random / sticky-random / PCT-style; a context switch can happen at every user callback and every source call; evaluations = executions (one schedule of one case), each operation compared with a brand-new parser used alone. distinct_nontrivial = distinct (case, switch sequence) with >= 2 context switches that pre-empt a client in the middle of a parse".into(),
         "lifesim" => "case = seeded (template, recursive()/declare-define form, 0-12 neutral wrappers between two recursion guards, thread stack size 64 KiB..8 MiB, nesting depth: exhaustive 0..64 then log-uniform up to 10^4 / 10^5 / 10^6, input variant well-formed | truncated | wrong token | surplus token, lifecycle history of <= 11 ops: clone, drop (incl. the original handle), boxed, parse, check, define-again); evaluations = cases. distinct_nontrivial = distinct cases with (depth >= 1000 on a stack <= 256 KiB) OR (>= 3 lifecycle ops with a drop or define-again before the final parse)".into(),
         _ => String::new(),
     }
@@ -285,6 +468,17 @@ fn assumptions(engine: &str) -> Vec<String> {
             "error descriptions (found/expected/messages) are not part of C10 and are only counted when they differ".into(),
             "empty spans of mapped (token,span) inputs are compared among mapped kinds only".into(),
             "seeded sampling: a clean run is evidence, not proof".into(),
+        ],
+        "histsim" => vec![
+            "reference = a brand-new parser built from the same grammar on the same input (same abort point): chumsky compared with chumsky, no independent semantics".into(),
+            "a panic that occurs identically in the reference and in the history (reachable unwraps in the tree, e.g. memoized + recover_with) is an equal outcome, not a violation".into(),
+            "re-entrant parsing from inside a callback is outside the statement and is not generated".into(),
+            "seeded sampling plus one small exhaustively enumerated sub-space: a clean run is evidence, not proof".into(),
+        ],
+        "thrsim" => vec![
+            "clients are real OS threads but only one runs at a time: a switch can only happen where the parser calls out (user closure, source call); a shared read-modify-write with no call-out inside is atomic here - the Miri layer (thorough tier) covers that gap".into(),
+            "only Sync-capable grammars: no Recursive/Boxed (Rc) inside the shared parser".into(),
+            "reference = a brand-new parser used alone, computed before and after the concurrent executions".into(),
         ],
         "lifesim" => vec![
             "oracle 1 (openers <= unroll bound): full equality, errors included, with the same grammar unrolled with plain combinators and no Recursive, run on a separate 2 GiB-stack thread".into(),
@@ -308,7 +502,13 @@ fn replay_file(p: &Path, verbose: bool) -> i32 {
         let e = engine_by_name(engine);
         let mut acc = pool::Acc::default();
         let tier = v["tier"].as_str().unwrap_or("quick");
-        e.run_case(v["seed"].as_u64().unwrap(), v["case"].as_u64().unwrap(), tier, &mut acc);
+        if let Some(seq) = v["sequence"].as_array() {
+            // a case that only fails after earlier cases ran on the same thread
+            let seq: Vec<u64> = seq.iter().filter_map(|x| x.as_u64()).collect();
+            acc.violations = pool::run_sequence_isolated(&*e, v["seed"].as_u64().unwrap(), &seq, tier);
+        } else {
+            e.run_case(v["seed"].as_u64().unwrap(), v["case"].as_u64().unwrap(), tier, &mut acc);
+        }
         if let Some(vi) = acc.violations.first() {
             if verbose {
                 println!("reproduced: {}", vi.summary);
@@ -355,6 +555,40 @@ fn replay_file(p: &Path, verbose: bool) -> i32 {
                 }
             }
         }
+        "histsim" => {
+            let rp: histsim::Replay = serde_json::from_value(v).unwrap_or_else(|e| harness_error(&format!("bad histsim replay: {}", e)));
+            match histsim::replay(&rp) {
+                Some((class, op, exp, obs)) => {
+                    if verbose {
+                        println!("reproduced property=C13 class={}\n {}\n failing op #{:?}\n expected={}\n observed={}", class, histsim::describe(&rp), op, exp.brief(), obs.brief());
+                    }
+                    1
+                }
+                None => {
+                    if verbose {
+                        println!("not reproduced");
+                    }
+                    0
+                }
+            }
+        }
+        "thrsim" => {
+            let rp: thrsim::Replay = serde_json::from_value(v).unwrap_or_else(|e| harness_error(&format!("bad thrsim replay: {}", e)));
+            match thrsim::replay(&rp) {
+                Some((class, failing, exp, obs, _)) => {
+                    if verbose {
+                        println!("reproduced property=C13 class={}\n subject={}\n pool={:?}\n clients={:?}\n schedule={:?}\n failing (client, op)={:?}\n expected={}\n observed={}", class, rp.subject_shown, rp.pool_shown, rp.spec.clients, rp.schedules, failing, exp.brief(), obs.brief());
+                    }
+                    1
+                }
+                None => {
+                    if verbose {
+                        println!("not reproduced");
+                    }
+                    0
+                }
+            }
+        }
         _ => harness_error("replay: unknown engine"),
     }
 }
@@ -362,6 +596,27 @@ fn replay_file(p: &Path, verbose: bool) -> i32 {
 fn minimise_file(src: &Path, dst: &Path) {
     let v: Value = serde_json::from_slice(&std::fs::read(src).unwrap()).unwrap();
     if v["regenerate"].as_bool() == Some(true) {
+        if let Some(seq) = v["sequence"].as_array() {
+            // shrink the sequence of preceding cases: drop every one that is not needed
+            let e = engine_by_name(v["engine"].as_str().unwrap_or(""));
+            let tier = v["tier"].as_str().unwrap_or("quick").to_string();
+            let seed = v["seed"].as_u64().unwrap();
+            let mut seq: Vec<u64> = seq.iter().filter_map(|x| x.as_u64()).collect();
+            let mut i = 0;
+            while i + 1 < seq.len() {
+                let mut cand = seq.clone();
+                cand.remove(i);
+                if !pool::run_sequence_isolated(&*e, seed, &cand, &tier).is_empty() {
+                    seq = cand;
+                } else {
+                    i += 1;
+                }
+            }
+            let mut d = v.clone();
+            d["sequence"] = json!(seq);
+            std::fs::write(dst, serde_json::to_vec_pretty(&d).unwrap()).unwrap();
+            return;
+        }
         std::fs::copy(src, dst).unwrap();
         return;
     }
@@ -369,6 +624,16 @@ fn minimise_file(src: &Path, dst: &Path) {
         "srcsim" => {
             let rp: srcsim::Replay = serde_json::from_value(v).unwrap();
             let m = srcsim::minimise(&rp);
+            std::fs::write(dst, serde_json::to_vec_pretty(&m).unwrap()).unwrap();
+        }
+        "histsim" => {
+            let rp: histsim::Replay = serde_json::from_value(v).unwrap();
+            let m = histsim::minimise(&rp);
+            std::fs::write(dst, serde_json::to_vec_pretty(&m).unwrap()).unwrap();
+        }
+        "thrsim" => {
+            let rp: thrsim::Replay = serde_json::from_value(v).unwrap();
+            let m = thrsim::minimise(&rp);
             std::fs::write(dst, serde_json::to_vec_pretty(&m).unwrap()).unwrap();
         }
         "lifesim" => {
